@@ -156,7 +156,7 @@ def to_unstable(gaf_line, reference):
     )
 
     # Add cigar in reverse
-    if gaf_line.strand == "-":
+    if gaf_line.strand == "-" and "cg:Z:" in gaf_line.tags:
         new_cigar = utils.reverse_cigar(gaf_line.cigar)
         gaf_line.tags["cg:Z:"] = new_cigar
 
@@ -228,7 +228,7 @@ def to_stable(gaf_line, nodes, ref_contig, contig_len):
     )
 
     # Add cigar in reverse
-    if reverse_flag:
+    if reverse_flag and "cg:Z:" in gaf_line.tags:
         new_cigar = utils.reverse_cigar(gaf_line.cigar)
         gaf_line.tags["cg:Z:"] = new_cigar
 
